@@ -18,8 +18,11 @@ From NL.Spec Require ScopeSpec.
 From NL.Proofs Require VMStepProofs CompilerNames SymbolsProofs PoolProofs VMTotal CompileCorrectH3 CompileCorrectH4.
 From NL.Proofs Require Import WordProofs OpsProofs AstInduction ControlProofs VMGCLedger
   CompileCorrectA CompileCorrectB CompileCorrectC CompileCorrectD CompileCorrectH1
-  CompileCorrectJ1 CompileCorrectJ2 CompileCorrectJ3.
+  CompileCorrectJ1 CompileCorrectJ2 CompileCorrectJ0 CompileCorrectJ3.
 Open Scope Z_scope.
+
+Notation grows := CompileCorrectH4.grows.
+Notation rstate := CompileCorrectH4.rstate.
 
 (** * Tags *)
 
@@ -931,6 +934,14 @@ Proof.
     split; [exists (x1 ++ x2); rewrite X2, X1, app_assoc; reflexivity|]. split; congruence.
 Qed.
 
+(* what an error / excluded result of the evaluator records against Sem's state at that point: the
+   same output, as many boxes *)
+Definition at_state (m : hst) (sst : sstate) : Prop :=
+  hs_out m = st_out sst /\ n_alloc (hs_heap m) = n_alloc (st_heap sst).
+(* the evaluator has stopped (excluded comparison) while Sem goes on: Sem's heap only grows *)
+Definition below {A} (m : hst) (r : res A) : Prop :=
+  match rstate r with Some s => n_alloc (hs_heap m) <= n_alloc (st_heap s) | None => True end.
+
 Section Corr.
   Variable Sall : fentry -> Prop.
 
@@ -941,16 +952,17 @@ Section Corr.
   Definition corr (E E' : cenv) (F : list fentry) (sst : sstate) (r : res val) (x : yres val) : Prop :=
     match r, x with
     | RFuel, _ => True
-    | _, YExcl None => True
-    | RErr EArgumentError _, YExcl (Some (fe, argc)) => Sall fe /\ Z.of_nat (length (fe_ps fe)) < argc
+    | _, YExcl None m => below m r
+    | RErr EArgumentError sst', YExcl (Some (fe, argc)) m =>
+        Sall fe /\ Z.of_nat (length (fe_ps fe)) < argc /\ at_state m sst'
     | ROk vs sst', YOk vy y' => exists X, vrel (F ++ X) vs vy /\ Rel3 Sall E' (F ++ X) sst' y' /\ frame E sst sst'
     | RSig SigBreak sst', YBrk y' => exists X, Rel3 Sall E' (F ++ X) sst' y' /\ frame E sst sst'
     | RSig SigContinue sst', YCnt y' => exists X, Rel3 Sall E' (F ++ X) sst' y' /\ frame E sst sst'
     | RSig (SigReturn vs) sst', YRet vy y' =>
         ce_mode E = MFun /\
         exists X, vrel (F ++ X) vs vy /\ Rel3 Sall E' (F ++ X) sst' y' /\ frame E sst sst'
-    | RErr k sst', YErr k' out => k' = k /\ out = st_out sst'
-    | RFault f sst', YFault f' out => f' = f /\ out = st_out sst'
+    | RErr k sst', YErr k' m => k' = k /\ at_state m sst'
+    | RFault f sst', YFault f' m => f' = f /\ at_state m sst'
     | _, _ => False
     end.
 End Corr.
@@ -980,7 +992,7 @@ Section CorrLemmas.
     corr Sall E E2 (F ++ X) sst1 r x -> corr Sall E E2 F sst r x.
   Proof.
     intros E E2 F X sst sst1 r x Hf H.
-    destruct r as [vs s'|[| |rv] s'|k s'|f s'|]; destruct x as [vy y'|y'|y'|vy y'|k' o'|f' o'|[[fe ac]|]|]; cbn [corr] in *;
+    destruct r as [vs s'|[| |rv] s'|k s'|f s'|]; destruct x as [vy y'|y'|y'|vy y'|k' o'|f' o'|[[fe ac]|] mx|]; cbn [corr] in *;
       try exact I; try contradiction; try exact H;
       try (destruct k; first [exact I|contradiction|exact H]).
     - destruct H as [X' [V [R Fr]]]. exists (X ++ X'). rewrite app_assoc. split; [exact V|]. split; [exact R|].
@@ -991,28 +1003,54 @@ Section CorrLemmas.
       exact (frame_trans _ _ _ _ Hf Fr).
   Qed.
 
+  Lemma below_rbind : forall A B (m : hst) (r : res A) (k : A -> sstate -> res B),
+    (forall a s1, grows s1 (k a s1)) -> below m r -> below m (rbind r k).
+  Proof.
+    intros A B m r k Hg H. destruct r as [a s'|sg s'|e s'|f s'|]; cbn [rbind]; try exact H.
+    unfold below in *. cbn [CompileCorrectH4.rstate] in H. specialize (Hg a s'). unfold CompileCorrectH4.grows in Hg.
+    destruct (CompileCorrectH4.rstate (k a s')); [lia|exact I].
+  Qed.
+
   Lemma corr_bind : forall E F sst r x (k : val -> sstate -> res val) (kx : val -> yst -> yres val),
+    (forall a s1, grows s1 (k a s1)) ->
     corr Sall E E F sst r x ->
     (forall vs sst1 vy y1 X, vrel (F ++ X) vs vy -> Rel3 Sall E (F ++ X) sst1 y1 -> frame E sst sst1 ->
        corr Sall E E (F ++ X) sst1 (k vs sst1) (kx vy y1)) ->
     corr Sall E E F sst (rbind r k) (ybind x kx).
   Proof.
-    intros E F sst r x k kx H Hk.
-    destruct r as [vs s'|[| |rv] s'|e s'|f s'|]; destruct x as [vy y'|y'|y'|vy y'|k' o'|f' o'|[[fe ac]|]|]; cbn [corr rbind ybind] in *;
+    intros E F sst r x k kx Hg H Hk.
+    destruct r as [vs s'|[| |rv] s'|e s'|f s'|]; destruct x as [vy y'|y'|y'|vy y'|k' o'|f' o'|[[fe ac]|] mx|]; cbn [corr rbind ybind] in *;
       try exact I; try contradiction; try exact H;
       try (destruct e; first [exact I|contradiction|exact H]).
     - destruct H as [X [V [R Fr]]]. apply (corr_shift E E F X sst s' _ _ Fr). apply Hk; assumption.
-    - destruct (k vs s') as [a b|[| |c] b|e b|f b|]; try exact I. destruct e; exact I.
+    - pose proof (below_rbind _ _ mx (ROk vs s') k Hg H) as Hb. cbn [rbind] in Hb.
+      destruct (k vs s') as [a b|[| |c] b|e b|f b|]; try exact I; try exact Hb. destruct e; exact Hb.
+  Qed.
+
+  Lemma below_of : forall A m sst (r : res A), at_state m sst -> grows sst r -> below m r.
+  Proof.
+    intros A m sst r [_ Hn] Hg. unfold below. unfold CompileCorrectH4.grows in Hg.
+    destruct (CompileCorrectH4.rstate r); [lia|exact I].
+  Qed.
+
+  Lemma below_step : forall A B m (r : res A) s2 (r' : res B),
+    rstate r = Some s2 -> below m r -> grows s2 r' -> below m r'.
+  Proof.
+    intros A B m r s2 r' E H Hg. unfold below in *. rewrite E in H. unfold CompileCorrectH4.grows in Hg.
+    destruct (CompileCorrectH4.rstate r'); [lia|exact I].
   Qed.
 
   Lemma corr_fuel : forall E E' F sst x, corr Sall E E' F sst RFuel x.
-  Proof. intros. destruct x as [| | | | | |[[? ?]|]|]; exact I. Qed.
+  Proof. intros. destruct x as [| | | | | |[[? ?]|] ?|]; exact I. Qed.
 
-  Lemma corr_excl : forall E E' F sst r, corr Sall E E' F sst r (YExcl None).
-  Proof. intros. destruct r as [vs s'|[| |rv] s'|e s'|f s'|]; try exact I. destruct e; exact I. Qed.
+  Lemma corr_excl : forall E E' F sst r m, below m r -> corr Sall E E' F sst r (YExcl None m).
+  Proof. intros E E' F sst r m H. destruct r as [vs s'|[| |rv] s'|e s'|f s'|]; try exact I; try exact H. destruct e; exact H. Qed.
 
-  Lemma corr_err : forall E E' F sst k, corr Sall E E' F sst (RErr k sst) (YErr k (st_out sst)).
+  Lemma corr_err : forall E E' F sst k m, at_state m sst -> corr Sall E E' F sst (RErr k sst) (YErr k m).
   Proof. intros. destruct k; cbn [corr]; auto. Qed.
+
+  Lemma corr_fault : forall E E' F sst x m, at_state m sst -> corr Sall E E' F sst (RFault x sst) (YFault x m).
+  Proof. intros. cbn [corr]; auto. Qed.
 End CorrLemmas.
 
 (** * Maintaining the state relation *)
@@ -1068,6 +1106,12 @@ Section RelLemmas.
   Lemma frame_heap : forall E sst h, frame E sst (mkSt h (st_cells sst) (st_next sst) (st_funs sst) (st_out sst)).
   Proof. intros. split; [cbn [st_next]; lia|auto]. Qed.
 
+  Lemma Rel3_at : forall E F sst y, Rel3 Sall E F sst y -> at_state (y_out y) sst.
+  Proof.
+    intros E F sst y HR. split; [symmetry; exact (r_out _ _ _ _ _ HR)|].
+    symmetry. exact (hsm_nalloc _ _ _ (r_heap _ _ _ _ _ HR)).
+  Qed.
+
   (* the result of a value-level function applied on both sides *)
   Lemma lift_agree : forall E F sst y (rs rz : outcome (val * heap)), Rel3 Sall E F sst y ->
     orel (resrel F) rs rz -> corr Sall E E F sst (lift_heap sst rs) (ylift_h y rz).
@@ -1077,8 +1121,8 @@ Section RelLemmas.
       cbn [lift_heap ylift_h ylift_o lift_h bind corr fst snd]. exists []. rewrite app_nil_r.
       split; [exact Hv|]. split; [|apply frame_heap].
       apply Rel3_heap; [exact HR| | |]; destruct (y_m y) as [hh gg gl oo]; cbn [with_new_h hs_heap hs_gl hs_out]; [exact Hh|reflexivity|reflexivity].
-    - subst k'. cbn [lift_heap ylift_h ylift_o lift_h bind]. unfold y_out. rewrite <- (r_out _ _ _ _ _ HR). apply corr_err.
-    - subst f'. cbn [lift_heap ylift_h ylift_o lift_h bind corr]. unfold y_out. rewrite <- (r_out _ _ _ _ _ HR). auto.
+    - subst k'. cbn [lift_heap ylift_h ylift_o lift_h bind]. apply corr_err. exact (Rel3_at _ _ _ _ HR).
+    - subst f'. cbn [lift_heap ylift_h ylift_o lift_h bind corr]. split; [reflexivity|exact (Rel3_at _ _ _ _ HR)].
     - exact I.
   Qed.
 
@@ -1088,16 +1132,16 @@ Section RelLemmas.
     intros E F sst y rs rz HR H. destruct rs as [v|k|f|]; destruct rz as [v'|k'|f'|]; cbn [orel] in H; try contradiction.
     - cbn [lift_plain ylift_p ylift_o lift_p bind corr fst snd]. exists []. rewrite app_nil_r.
       split; [exact H|]. rewrite yst_eta. split; [exact HR|apply frame_refl].
-    - subst k'. cbn [lift_plain ylift_p ylift_o lift_p bind]. unfold y_out. rewrite <- (r_out _ _ _ _ _ HR). apply corr_err.
-    - subst f'. cbn [lift_plain ylift_p ylift_o lift_p bind corr]. unfold y_out. rewrite <- (r_out _ _ _ _ _ HR). auto.
+    - subst k'. cbn [lift_plain ylift_p ylift_o lift_p bind]. apply corr_err. exact (Rel3_at _ _ _ _ HR).
+    - subst f'. cbn [lift_plain ylift_p ylift_o lift_p bind corr]. split; [reflexivity|exact (Rel3_at _ _ _ _ HR)].
     - exact I.
   Qed.
 
   Lemma err_corr4 : forall E F sst y k, Rel3 Sall E F sst y -> corr Sall E E F sst (RErr k sst) (YErr k (y_out y)).
-  Proof. intros E F sst y k HR. unfold y_out. rewrite <- (r_out _ _ _ _ _ HR). apply corr_err. Qed.
+  Proof. intros E F sst y k HR. apply corr_err. exact (Rel3_at _ _ _ _ HR). Qed.
 
   Lemma fault_corr4 : forall E F sst y x, Rel3 Sall E F sst y -> corr Sall E E F sst (RFault x sst) (YFault x (y_out y)).
-  Proof. intros E F sst y x HR. unfold y_out. rewrite <- (r_out _ _ _ _ _ HR). cbn [corr]. auto. Qed.
+  Proof. intros E F sst y x HR. cbn [corr]. split; [reflexivity|exact (Rel3_at _ _ _ _ HR)]. Qed.
 
   (* a [i] on both sides: Sem's indexing rule against the machine's *)
   Lemma index_get_corr : forall E F sst y base base' idx idx', Rel3 Sall E F sst y ->
@@ -1419,99 +1463,7 @@ End RelLemmas.
 
 (** * Unfolding equations of Sem for functions and calls *)
 
-Section SemEq3.
-  Variable orc : oracle.
-
-  Definition sem_list (f : nat) (c : dctx) : list expr -> sstate -> res (list val) :=
-    fix go (l : list expr) (st : sstate) : res (list val) :=
-      match l with
-      | [] => ROk [] st
-      | x :: r =>
-          rdo (v, st) <- eval_expr orc f c x st;
-          rdo (vs, st) <- go r st;
-          ROk (v :: vs) st
-      end.
-
-  Definition sem_bind : list text -> list val -> list (text * positive) -> sstate -> list (text * positive) * sstate :=
-    fix bind (ps : list text) (vs : list val) (acc : list (text * positive)) (st : sstate) :=
-      match ps with
-      | [] => (acc, st)
-      | p :: ps' =>
-          let '(cl, st') := new_cell st in
-          let '(v, vs') := match vs with v :: r => (v, r) | [] => (VNull, []) end in
-          bind ps' vs' ((p, cl) :: acc) (set_cell cl v st')
-      end.
-
-  Definition sem_call (f : nat) (fv : val) (vs : list val) (st : sstate) : res val :=
-    match fv with
-    | VFun id _ =>
-        match nth_error (st_funs st) (Z.to_nat id) with
-        | Some clo =>
-            if Nat.ltb (length (k_params clo)) (length vs) then RErr EArgumentError st
-            else
-              let '(scope, st1) := sem_bind (k_params clo) vs [] st in
-              match exec_block orc f (mkD [scope] (Some (k_genv clo))) (k_body clo) VNull st1 with
-              | ROk v st2 => ROk v st2
-              | RSig (SigReturn v) st2 => ROk v st2
-              | RSig _ st2 => RErr ESyntaxError st2
-              | RErr k st2 => RErr k st2
-              | RFault x st2 => RFault x st2
-              | RFuel => RFuel
-              end
-        | None => RFault FBadTag st
-        end
-    | _ => RErr ETypeError st
-    end.
-
-  Lemma ee_call : forall f c fn args st, is_builtin_callee fn = false ->
-    eval_expr orc (S f) c (ECall fn args) st =
-    rbind (sem_list f c args st) (fun vs st =>
-      rbind (eval_expr orc f c fn st) (fun fv st => sem_call f fv vs st)).
-  Proof.
-    intros f c fn args st Hb.
-    assert (match fn with EIdent x => assoc_text x builtin_names | _ => None end = None) as E.
-    { destruct fn; try reflexivity. cbn [is_builtin_callee] in Hb. unfold is_builtin_name in Hb.
-      destruct (assoc_text s builtin_names); [discriminate Hb|reflexivity]. }
-    cbn [eval_expr]. fold (sem_list f c). destruct (sem_list f c args st) as [vs st1| | | |]; try reflexivity.
-    cbn [rbind]. rewrite E. reflexivity.
-  Qed.
-
-  Lemma sl_nil : forall f c st, sem_list f c [] st = ROk [] st.
-  Proof. reflexivity. Qed.
-  Lemma sl_cons : forall f c x r st,
-    sem_list f c (x :: r) st =
-    rbind (eval_expr orc f c x st) (fun v st => rbind (sem_list f c r st) (fun vs st => ROk (v :: vs) st)).
-  Proof. reflexivity. Qed.
-
-  Lemma ee_function : forall f c name ps body st,
-    eval_expr orc (S f) c (EFunction name ps body) st =
-    let '(c1, st1, cell) :=
-      match name with
-      | [] => (c, st, None)
-      | _ => let '(cl, st') := new_cell st in (d_declare c name cl, st', Some cl)
-      end in
-    let g := match d_global c1 with Some g => g | None => d_local c1 end in
-    let id := zlength (st_funs st1) in
-    let st2 := mkSt (st_heap st1) (st_cells st1) (st_next st1)
-                    (st_funs st1 ++ [mkClo ps body g]) (st_out st1) in
-    let v := VFun id 0 in
-    ROk v (match cell with Some cl => set_cell cl v st2 | None => st2 end).
-  Proof. reflexivity. Qed.
-
-  Lemma eb_return : forall f c e r last st,
-    exec_block orc (S f) c (SReturn e :: r) last st =
-    rbind (eval_expr orc f c e st) (fun v st1 => RSig (SigReturn v) st1).
-  Proof. reflexivity. Qed.
-
-  Lemma eb_expr3 : forall f c e r last st,
-    exec_block orc (S f) c (SExpr e :: r) last st =
-    rbind (eval_expr orc f c e st) (fun v st1 =>
-      exec_block orc f (match e with
-                        | EFunction (ch :: name) _ _ => d_declare c (ch :: name) (Pos.pred (st_next st1))
-                        | _ => c
-                        end) r v st1).
-  Proof. reflexivity. Qed.
-End SemEq3.
+(* the unfolding equations of Sem.v for calls and function literals: CompileCorrectJ0 *)
 
 (** * Contexts along the compilation *)
 
@@ -1554,6 +1506,25 @@ Proof.
 Qed.
 
 (** * Sem agrees with the intermediate evaluator *)
+
+(* Sem's heap only grows (CompileCorrectJ0): the continuations of Sem's evaluation *)
+Ltac gro := intros; repeat first
+  [ apply CompileCorrectH4.grows_rbind; [|intros]
+  | apply grows_e | apply grows_w | apply grows_b
+  | apply CompileCorrectH4.grows_lift_heap;
+      first [apply CompileCorrectH3.binop_grows | apply CompileCorrectH3.negate_grows
+            | apply CompileCorrectH3.alloc_str_grows | apply CompileCorrectH3.alloc_float_grows]
+  | apply CompileCorrectH4.grows_lift_plain
+  | apply CompileCorrectH4.grows_index_get | apply CompileCorrectH4.grows_index_set
+  | apply CompileCorrectH4.grows_array | apply CompileCorrectH4.grows_builtin
+  | apply grows_call; intros; apply grows_b
+  | apply grows_wtail
+  | match goal with |- CompileCorrectH4.grows ?s (exec_block _ _ _ _ _ (Sem.set_cell ?c ?v ?s)) =>
+      apply (CompileCorrectH4.grows_cells _ s (Sem.set_cell c v s)); [reflexivity|] end
+  | apply grows_list4; intros; apply grows_e
+  | solve [unfold CompileCorrectH4.grows; cbn [CompileCorrectH4.rstate Sem.set_cell st_heap]; lia]
+  | exact I
+  | match goal with |- CompileCorrectH4.grows _ (match ?x with _ => _ end) => destruct x end ].
 
 Section SemSim.
   Variable orc : oracle.
@@ -1731,7 +1702,7 @@ Section SemSim.
     assert (cmax st' = cmax st1) as Hk'.
     { unfold cmax. rewrite (proj1 (emit_sym_spec _ _ _ _ Hc)), (proj1 (emit_sym_spec _ _ _ _ H2)). reflexivity. }
     rewrite ee_assign_ident, ye_assign, L1, Er.
-    apply corr_bind.
+    apply corr_bind; [solve [gro]| |].
     - apply (IHe false fa fn r c st st1 E F sst y HF H1 Hctx Hfl HR); [|exact Hhr|].
       + intros Em. specialize (Hloc Em). lia.
       + intros fe Ho. apply Hocc. apply oc_assign. exact Ho.
@@ -1754,7 +1725,7 @@ Section SemSim.
     rewrite f4e_prefix in HF. apply andb_prop in HF. destruct HF as [Hop HF].
     rewrite ce_prefix in Hc. bok Hc st1 H1.
     assert (cmax st' = cmax st1) as Hk' by (destruct op; try discriminate Hop; inversion Hc; reflexivity).
-    rewrite ee_prefix, ye_prefix. apply corr_bind.
+    rewrite ee_prefix, ye_prefix. apply corr_bind; [solve [gro]| |].
     - apply (IHe false fa fn r c st st1 E F sst y HF H1 Hctx Hfl HR); [| |].
       + intros Em. specialize (Hloc Em). lia.
       + apply (holes_gen_sub E _ _) with (2 := Hh). intros y0 Hm. rewrite mentions_prefix in Hm. exact Hm.
@@ -1795,15 +1766,16 @@ Section SemSim.
     destruct (ctx_ok_expr l false fa fn st0 st1 c E Hl H1 Hctx) as [Hctx1 Hk1].
     destruct (ctx_ok_expr r false fa fn st1 st2 c E Hr H2 Hctx1) as [Hctx2 Hk2].
     assert (cmax (emit_opcode opc st2) = cmax st2) as Hk' by reflexivity.
-    unfold ygeneric. rewrite H1. apply corr_bind.
+    unfold ygeneric. rewrite H1. apply corr_bind; [solve [gro]| |].
     - apply (IHe false fa fn l c st0 st1 E F sst y Hl H1 Hctx Hfl HR); [|exact Hhl|exact Hol].
       intros Em. specialize (Hloc Em). lia.
-    - intros a sst1 a' y1 X1 Va R1 Fr1. apply corr_bind.
+    - intros a sst1 a' y1 X1 Va R1 Fr1. apply corr_bind; [solve [gro]| |].
       + apply (IHe false fa fn r c st1 st2 E (F ++ X1) sst1 y1 Hr H2 Hctx1 Hfl R1); [|exact Hhr|].
         * intros Em. specialize (Hloc Em). lia.
         * intros fe Ho. exact (Hor st1 fe H1 Ho).
       + intros b sst2 b' y2 X2 Vb R2 Fr2. rewrite Hmeth. unfold ybinop.
-        destruct (is_fun a' && is_fun b' && is_eqop op) eqn:Efe; [apply corr_excl|]. rewrite Hmeth.
+        destruct (is_fun a' && is_fun b' && is_eqop op) eqn:Efe;
+          [apply corr_excl; apply (below_of _ _ sst2); [exact (Rel3_at Sall _ _ _ _ R2)|solve [gro]]|]. rewrite Hmeth.
         apply lift_agree; [exact R2|].
         exact (binop_agree orc ((F ++ X1) ++ X2) op mth _ _ a b a' b' Hmeth (vrel_mono _ _ _ _ Va) Vb (r_heap _ _ _ _ _ R2) Efe).
   Qed.
@@ -1936,7 +1908,7 @@ Section SemSim.
     assert (cmax st5 <= cmax st6)%nat as Hk6.
     { destruct alt as [bl|]; [exact (proj1 (proj2 (bv_ctx bl lp fn fn st5 st6 c E Hfa H6 Hctx5)))|].
       inversion H6; subst st6. unfold cmax. cbn [emit_opcode c_symbols]. lia. }
-    rewrite ee_if, ye_if, H1. apply corr_bind.
+    rewrite ee_if, ye_if, H1. apply corr_bind; [solve [gro]| |].
     - apply (IHe false fa fn cnd c st st1 E F sst y Hfc H1 Hctx Hfl HR); [|exact Hhc|].
       + intros Em. specialize (Hloc Em). lia.
       + intros fe Ho. apply Hocc. apply oc_if_c. exact Ho.
@@ -1955,7 +1927,7 @@ Section SemSim.
                                    end
                   | _ => YErr ETypeError (y_out y1)
                   end = YErr ETypeError (y_out y1)) as -> by (destruct b' as [|[|]| | | | |]; try reflexivity; exfalso; eapply N2; reflexivity).
-          unfold y_out. rewrite <- (r_out _ _ _ _ _ R1). apply corr_err. }
+          apply corr_err. exact (Rel3_at Sall _ _ _ _ R1). }
       destruct bb.
       + (* the consequence *)
         destruct t as [|s0 r0].
@@ -2015,7 +1987,7 @@ Section SemSim.
     destruct (ctx_ok_expr cnd false fa fn st2 st3 c E Hfc H3 Hctx) as [Hctx3 Hk3].
     destruct (ctx_ok_syms st3 (wh_st4 st3) c E eq_refl Hctx3) as [Hctx4 Hk4].
     destruct (bv_ctx body true fn fn (wh_st4 st3) st5 c E Hfb H5 Hctx4) as [_ [Hk5 Hb5]].
-    rewrite ew_step, yw_step. apply corr_bind.
+    rewrite ew_step, yw_step. apply corr_bind; [solve [gro]| |].
     - apply (IHe false fa fn cnd c st2 st3 E F sst y Hfc H3 Hctx Hfl HR); [|exact Hhc|exact Hoc].
       intros Em. specialize (Hloc Em). lia.
     - intros b sst1 b' y1 X V R1 Fr1.
@@ -2024,7 +1996,7 @@ Section SemSim.
             by (intros; destruct b as [|[|]| | | | |]; try reflexivity; exfalso; eapply N1; reflexivity).
           assert (forall A (x1 x2 x3 : A), match b' with VBool true => x1 | VBool false => x2 | _ => x3 end = x3) as E2
             by (intros; destruct b' as [|[|]| | | | |]; try reflexivity; exfalso; eapply N2; reflexivity).
-          rewrite E1, E2. unfold y_out. rewrite <- (r_out _ _ _ _ _ R1). apply corr_err. }
+          rewrite E1, E2. apply corr_err. exact (Rel3_at Sall _ _ _ _ R1). }
       destruct bb.
       + assert (corr Sall E E (F ++ X) sst1 (exec_block orc f (d_push c) body VNull sst1) (yblock orc lit_fresh f (wh_st4 st3) body y1)) as Hb.
         { destruct body as [|s0 r0].
@@ -2034,20 +2006,20 @@ Section SemSim.
             apply (block_corr f IHl true fa fn (s0 :: r0) c (wh_st4 st3) stb E (F ++ X) sst1 y1 Hfb Hfl); try assumption.
             intros _. split; [exact Hstb|]. intros Em. specialize (Hloc Em). lia. }
         destruct (exec_block orc f (d_push c) body VNull sst1) as [v s2|[| |rv] s2|k s2|x0 s2|];
-          destruct (yblock orc lit_fresh f (wh_st4 st3) body y1) as [v' y2|y2|y2|v' y2|k' o'|x' o'|[[fe0 ac0]|]|]; cbn [corr] in Hb |- *;
+          destruct (yblock orc lit_fresh f (wh_st4 st3) body y1) as [v' y2|y2|y2|v' y2|k' o'|x' o'|[[fe0 ac0]|] mx|]; cbn [corr] in Hb |- *;
           try contradiction; try exact I; try exact Hb;
           try (destruct k; try contradiction; try exact I; exact Hb).
         * (* another iteration *)
           destruct Hb as [X2 [V2 [R2 Fr2]]]. apply (corr_shift Sall E E (F ++ X) X2 sst1 s2 _ _ Fr2).
           apply (IHw fa fn iter cnd body c st2 st3 st5 E ((F ++ X) ++ X2) s2 y2 v v' Hfc Hfb H3 H5 Hctx Hfl R2 Hloc Hhc Hhb Hoc Hob V2).
-        * apply corr_excl.
+        * apply corr_excl. apply (below_step _ _ mx (ROk v s2) s2); [reflexivity|exact Hb|apply grows_w].
         * (* stop *)
           destruct Hb as [X2 [R2 Fr2]]. exists X2. split; [apply vrel_null|]. split; [exact R2|exact Fr2].
         * (* volgende *)
           destruct Hb as [X2 [R2 Fr2]]. apply (corr_shift Sall E E (F ++ X) X2 sst1 s2 _ _ Fr2).
           apply (IHw fa fn iter cnd body c st2 st3 st5 E ((F ++ X) ++ X2) s2 y2 VNull VNull Hfc Hfb H3 H5 Hctx Hfl R2 Hloc Hhc Hhb Hoc Hob
                      (vrel_null _)).
-        * apply corr_excl.
+        * apply corr_excl. apply (below_step _ _ mx (RSig SigContinue s2 : res val) s2); [reflexivity|exact Hb|apply grows_w].
       + cbn [corr]. exists []. rewrite app_nil_r. split; [apply vrel_mono; exact Vl|]. split; [exact R1|apply frame_refl].
   Qed.
 
@@ -2341,18 +2313,22 @@ Section SemSim.
   Definition corr_a (E : cenv) (F : list fentry) (sst : sstate) (r : res (list val)) (x : yres (list val)) : Prop :=
     match r, x with
     | RFuel, _ => True
-    | _, YExcl None => True
-    | RErr EArgumentError _, YExcl (Some (fe, argc)) => Sall fe /\ Z.of_nat (length (fe_ps fe)) < argc
+    | _, YExcl None m => below m r
+    | RErr EArgumentError sst', YExcl (Some (fe, argc)) m =>
+        Sall fe /\ Z.of_nat (length (fe_ps fe)) < argc /\ at_state m sst'
     | ROk vs sst', YOk vs' y' => exists X, Forall2 (vrel (F ++ X)) vs vs' /\ Rel3 Sall E (F ++ X) sst' y' /\ frame E sst sst'
     | RSig SigBreak sst', YBrk y' => exists X, Rel3 Sall E (F ++ X) sst' y' /\ frame E sst sst'
     | RSig SigContinue sst', YCnt y' => exists X, Rel3 Sall E (F ++ X) sst' y' /\ frame E sst sst'
     | RSig (SigReturn v) sst', YRet v' y' =>
         ce_mode E = MFun /\
         exists X, vrel (F ++ X) v v' /\ Rel3 Sall E (F ++ X) sst' y' /\ frame E sst sst'
-    | RErr k sst', YErr k' out => k' = k /\ out = st_out sst'
-    | RFault f sst', YFault f' out => f' = f /\ out = st_out sst'
+    | RErr k sst', YErr k' m => k' = k /\ at_state m sst'
+    | RFault f sst', YFault f' m => f' = f /\ at_state m sst'
     | _, _ => False
     end.
+
+  Lemma corr_a_excl : forall E F sst r m, below m r -> corr_a E F sst r (YExcl None m).
+  Proof. intros E F sst r m H. destruct r as [vs s'|[| |rv] s'|e s'|f s'|]; try exact I; try exact H. destruct e; exact H. Qed.
 
   Lemma Forall2_vrel_mono : forall F X vs vs', Forall2 (vrel F) vs vs' -> Forall2 (vrel (F ++ X)) vs vs'.
   Proof. intros F X vs vs' H. induction H; constructor; [apply vrel_mono; assumption|assumption]. Qed.
@@ -2379,7 +2355,7 @@ Section SemSim.
         - apply (holes_gen_sub E _ _) with (2 := Hh). intros y0 Hm. cbn [mentions_es] in Hm. exact (orb_false_l _ _ Hm).
         - intros fe Ho. apply Hocc. apply oc_es_hd. exact Ho. }
       destruct (eval_expr orc f c a sst) as [v s1|[| |rv] s1|k s1|x0 s1|];
-        destruct (yeval orc lit_fresh f st a y) as [v' y1|y1|y1|v' y1|k' o'|x' o'|[[fe0 ac0]|]|]; cbn [corr rbind ybind corr_a] in Ca |- *;
+        destruct (yeval orc lit_fresh f st a y) as [v' y1|y1|y1|v' y1|k' o'|x' o'|[[fe0 ac0]|] mx|]; cbn [corr rbind ybind corr_a] in Ca |- *;
         try contradiction; try exact I; try exact Ca;
         try (destruct k; first [contradiction|exact I|exact Ca]).
       + destruct Ca as [X [V [R1 Fr1]]].
@@ -2388,7 +2364,7 @@ Section SemSim.
           - apply (holes_gen_sub E _ _) with (2 := Hh). intros y0 Hm. cbn [mentions_es] in Hm. exact (orb_false_r' _ _ Hm).
           - intros fe Ho. apply Hocc. exact (oc_es_tl a r st sta fe Ha Ho). }
         destruct (sem_list orc f c r s1) as [vs s2|[| |rv] s2|k s2|x0 s2|];
-          destruct (yargs orc lit_fresh f sta r y1) as [vs' y2|y2|y2|v2 y2|k' o'|x' o'|[[fe0 ac0]|]|]; cbn [corr_a rbind ybind] in Cr |- *;
+          destruct (yargs orc lit_fresh f sta r y1) as [vs' y2|y2|y2|v2 y2|k' o'|x' o'|[[fe0 ac0]|] mx|]; cbn [corr_a rbind ybind] in Cr |- *;
           try contradiction; try exact I; try exact Cr;
           try (destruct k; first [contradiction|exact I|exact Cr]).
         * destruct Cr as [X2 [V2 [R2 Fr2]]]. exists (X ++ X2). rewrite app_assoc.
@@ -2397,7 +2373,7 @@ Section SemSim.
         * destruct Cr as [X2 [R2 Fr2]]. exists (X ++ X2). rewrite app_assoc. split; [exact R2|exact (frame_trans _ _ _ _ Fr1 Fr2)].
         * destruct Cr as [Hmd [X2 [V2 [R2 Fr2]]]]. split; [exact Hmd|]. exists (X ++ X2). rewrite app_assoc.
           split; [exact V2|]. split; [exact R2|exact (frame_trans _ _ _ _ Fr1 Fr2)].
-      + destruct (sem_list orc f c r s1) as [vs s2|[| |rv] s2|k s2|x0 s2|]; try exact I. destruct k; exact I.
+      + apply corr_a_excl. apply (below_step _ _ mx (ROk v s1) s1); [reflexivity|exact Ca|solve [gro]].
   Qed.
 
   Lemma find_fun_some : forall fe funs, In fe funs ->
@@ -2443,7 +2419,7 @@ Section SemSim.
   Proof.
     intros f IHl E F sst y fv fv' vs vs' HR Vf Vv. unfold sem_call, ycall, ycall_g.
     destruct fv as [| | |id n0| | |]; cbn [vrel] in Vf;
-      try (destruct Vf as [-> _]; unfold y_out; rewrite <- (r_out _ _ _ _ _ HR); apply corr_err).
+      try (destruct Vf as [-> _]; apply corr_err; exact (Rel3_at Sall _ _ _ _ HR)).
     destruct Vf as [Hid [fe [Hfe ->]]].
     destruct (r_clo _ _ _ _ _ HR _ fe Hfe) as [Hin [clo [Hclo HC]]]. rewrite Hclo.
     destruct HC as [Cps [Cbody [CF3 [nf [c0 [mids [st4 [Cnf [Cg [Cs [Cp [Cfl [Cc [Cn Ch]]]]]]]]]]]]]].
@@ -2458,10 +2434,10 @@ Section SemSim.
          otherwise the excluded call *)
       apply Nat.ltb_lt in Ear. rewrite Cps in Ear.
       destruct (fe_n fe <? zlength vs') eqn:En.
-      - cbn [corr]. split; [reflexivity|]. unfold y_out. symmetry. exact (r_out _ _ _ _ _ HR).
+      - cbn [corr]. split; [reflexivity|exact (Rel3_at Sall _ _ _ _ HR)].
       - rewrite Hff, Z.eqb_refl. cbn [negb].
         assert (Z.of_nat (length (fe_ps fe)) <? zlength vs' = true) as -> by (apply Z.ltb_lt; unfold zlength; lia).
-        cbn [corr]. split; [exact (r_sall _ _ _ _ _ HR _ Hin)|unfold zlength; lia]. }
+        cbn [corr]. split; [exact (r_sall _ _ _ _ _ HR _ Hin)|]. split; [unfold zlength; lia|exact (Rel3_at Sall _ _ _ _ HR)]. }
     apply Nat.ltb_ge in Ear.
     rewrite Cps in Ear.
     assert (fe_n fe <? zlength vs' = false) as ->.
@@ -2506,7 +2482,7 @@ Section SemSim.
     pose proof (yblock_nosigF f (fe_body fe) true true (fe_st fe) y0 CF3) as Nsb.
     unfold yblock in Nsb.
     destruct (exec_block orc f cc (fe_body fe) VNull sst1) as [v s2|[| |rv] s2|k s2|x0 s2|];
-      destruct (yblock_g (ystmts orc lit_fresh f) (fe_st fe) (fe_body fe) y0) as [v' y3|y3|y3|v' y3|k' o'|x' o'|[[fe0 ac0]|]|];
+      destruct (yblock_g (ystmts orc lit_fresh f) (fe_st fe) (fe_body fe) y0) as [v' y3|y3|y3|v' y3|k' o'|x' o'|[[fe0 ac0]|] mx|];
       cbn [corr nosig] in Hbody, Nsb |- *; try contradiction; try exact I; try exact Hbody;
       try (destruct k; first [contradiction|exact I|exact Hbody]).
     - destruct Hbody as [X [V [R3 Fr3]]].
@@ -2525,33 +2501,21 @@ Section SemSim.
     - exact (orb_false_r' _ _ Hm).
   Qed.
 
-  Lemma builtin_of_none : forall fn_, builtin_of fn_ = None -> is_builtin_callee fn_ = false.
-  Proof.
-    intros fn_ H. destruct fn_; try reflexivity. cbn [is_builtin_callee builtin_of] in *. unfold is_builtin_name. rewrite H. reflexivity.
-  Qed.
-
-  Lemma ee_call_bi : forall f c fn_ b args st, builtin_of fn_ = Some b ->
-    eval_expr orc (S f) c (ECall fn_ args) st =
-    rbind (sem_list orc f c args st) (fun vs st => CompileCorrectH4.sem_builtin orc b st vs).
-  Proof.
-    intros f c fn_ b args st H. destruct fn_; try discriminate H. cbn [builtin_of] in H.
-    exact (CompileCorrectH4.ee_call_builtin orc f c s b args st H).
-  Qed.
-
   (* the destruct / propagate step shared by the constructs that evaluate a list of operands *)
   Lemma list_then : forall E F sst (r : res (list val)) (x : yres (list val))
                            (k : list val -> sstate -> res val) (kx : list val -> yst -> yres val),
+    (forall a s1, grows s1 (k a s1)) ->
     corr_a E F sst r x ->
     (forall vs s1 vs' y1 X, Forall2 (vrel (F ++ X)) vs vs' -> Rel3 Sall E (F ++ X) s1 y1 -> frame E sst s1 ->
        corr Sall E E (F ++ X) s1 (k vs s1) (kx vs' y1)) ->
     corr Sall E E F sst (rbind r k) (ybind x kx).
   Proof.
-    intros E F sst r x k kx Ca Hk.
-    destruct r as [vs s1|[| |rv] s1|e s1|x0 s1|]; destruct x as [vs' y1|y1|y1|v1 y1|k' o'|x' o'|[[fe0 ac0]|]|];
+    intros E F sst r x k kx Hg Ca Hk.
+    destruct r as [vs s1|[| |rv] s1|e s1|x0 s1|]; destruct x as [vs' y1|y1|y1|v1 y1|k' o'|x' o'|[[fe0 ac0]|] mx|];
       cbn [corr_a rbind ybind corr] in Ca |- *; try contradiction; try exact I; try exact Ca;
       try (destruct e; first [contradiction|exact I|exact Ca]).
     - destruct Ca as [X [Vv [R1 Fr1]]]. apply (corr_shift Sall E E F X sst s1 _ _ Fr1). apply Hk; assumption.
-    - destruct (k vs s1) as [a b|[| |q] b|e b|g b|]; try exact I. destruct e; exact I.
+    - apply corr_excl. apply (below_step _ _ mx (ROk vs s1) s1); [reflexivity|exact Ca|apply Hg].
   Qed.
 
   Lemma step_call_fun : forall f, P_e f -> P_l f -> forall lp fa fn fn_ args c st st' E F sst y,
@@ -2575,11 +2539,11 @@ Section SemSim.
     destruct (ctx_ok_expr fn_ false fa fn st1 st2 c E HFf H2 Hctx1) as [Hctx2 Hk2].
     assert (cmax (emit_u8 n (emit_opcode OCall st2)) = cmax st2) as Hk' by reflexivity.
     rewrite (ee_call orc f c fn_ args sst Hnb), ye_call, Enb, H1.
-    apply list_then.
+    apply list_then; [solve [gro]| |].
     { apply (args_corr f IHe args fa fn c st st1 E F sst y HFa H1 Hctx Hfl HR); [|exact Hha|].
       - intros Em. specialize (Hloc Em). lia.
       - intros fe Ho. apply Hocc. apply oc_call_a. exact Ho. }
-    intros vs s1 vs' y1 X Vv R1 Fr1. apply corr_bind.
+    intros vs s1 vs' y1 X Vv R1 Fr1. apply corr_bind; [solve [gro]| |].
     + apply (IHe false fa fn fn_ c st1 st2 E (F ++ X) s1 y1 HFf H2 Hctx1 Hfl R1); [|exact Hhf|].
       * intros Em. specialize (Hloc Em). lia.
       * intros fe Ho. apply Hocc. exact (oc_call_f fn_ args st st1 fe H1 Ho).
@@ -2601,8 +2565,8 @@ Section SemSim.
     cbv zeta in Hc. change (match fn_ with EIdent name => assoc_text name builtin_names | _ => None end) with (builtin_of fn_) in Hc.
     rewrite Eb in Hc. bok Hc n Hn. inversion Hc; subst st'; clear Hc.
     assert (cmax (emit_u8 n (emit_u8 (byte_of_builtin b) (emit_opcode OCallBuiltin st1))) = cmax st1) as Hk' by reflexivity.
-    rewrite (ee_call_bi f c fn_ b args sst Eb), ye_call, Eb.
-    apply list_then.
+    rewrite (ee_call_bi orc f c fn_ b args sst Eb), ye_call, Eb.
+    apply list_then; [solve [gro]| |].
     { apply (args_corr f IHe args fa fn c st st1 E F sst y HFa H1 Hctx Hfl HR); [|exact Hha|].
       - intros Em. specialize (Hloc Em). lia.
       - intros fe Ho. apply Hocc. apply oc_call_a. exact Ho. }
@@ -2657,7 +2621,7 @@ Section SemSim.
     assert (cmax (emit_u16 n (emit_opcode OArray st1)) = cmax st1) as Hk' by reflexivity.
     rewrite CompileCorrectH4.ee_array, ye_array.
     change (CompileCorrectH4.sem_list orc f c vs sst) with (sem_list orc f c vs sst).
-    apply list_then.
+    apply list_then; [solve [gro]| |].
     { apply (args_corr f IHe vs fa fn c st st1 E F sst y HF H1 Hctx Hfl HR).
       - intros Em. specialize (Hloc Em). lia.
       - apply (holes_gen_sub E _ _) with (2 := Hh). intros y0 Hm. rewrite mentions_array in Hm. exact Hm.
@@ -2680,11 +2644,11 @@ Section SemSim.
     assert (holes_e E l /\ holes_e E i) as [Hhl Hhi].
     { split; apply (holes_gen_sub E _ _) with (2 := Hh); intros y0 Hm; rewrite mentions_index in Hm;
         [exact (orb_false_l _ _ Hm)|exact (orb_false_r' _ _ Hm)]. }
-    rewrite CompileCorrectH4.ee_index, ye_index, H1. apply corr_bind.
+    rewrite CompileCorrectH4.ee_index, ye_index, H1. apply corr_bind; [solve [gro]| |].
     - apply (IHe false fa fn l c st st1 E F sst y Hl H1 Hctx Hfl HR); [|exact Hhl|].
       + intros Em. specialize (Hloc Em). lia.
       + intros fe Ho. apply Hocc. apply oc_index_l. exact Ho.
-    - intros a s1 a' y1 X1 Va R1 Fr1. apply corr_bind.
+    - intros a s1 a' y1 X1 Va R1 Fr1. apply corr_bind; [solve [gro]| |].
       + apply (IHe false fa fn i c st1 st2 E (F ++ X1) s1 y1 Hi H2 Hctx1 Hfl R1); [|exact Hhi|].
         * intros Em. specialize (Hloc Em). lia.
         * intros fe Ho. apply Hocc. exact (oc_index_i l i st st1 fe H1 Ho).
@@ -2711,15 +2675,15 @@ Section SemSim.
       - exact (orb_false_l _ _ (orb_false_l _ _ Hm)).
       - exact (orb_false_r' _ _ (orb_false_l _ _ Hm)).
       - exact (orb_false_r' _ _ Hm). }
-    rewrite CompileCorrectH4.ee_assign_index, ye_assign_index, H1. apply corr_bind.
+    rewrite CompileCorrectH4.ee_assign_index, ye_assign_index, H1. apply corr_bind; [solve [gro]| |].
     - apply (IHe false fa fn l c st st1 E F sst y Hl H1 Hctx Hfl HR); [|exact Hhl|].
       + intros Em. specialize (Hloc Em). lia.
       + intros fe Ho. apply Hocc. apply oc_aidx_l. exact Ho.
-    - intros a s1 a' y1 X1 Va R1 Fr1. rewrite H2. apply corr_bind.
+    - intros a s1 a' y1 X1 Va R1 Fr1. rewrite H2. apply corr_bind; [solve [gro]| |].
       + apply (IHe false fa fn i c st1 st2 E (F ++ X1) s1 y1 Hi H2 Hctx1 Hfl R1); [|exact Hhi|].
         * intros Em. specialize (Hloc Em). lia.
         * intros fe Ho. apply Hocc. exact (oc_aidx_i l i r st st1 fe H1 Ho).
-      + intros b s2 b' y2 X2 Vb R2 Fr2. apply corr_bind.
+      + intros b s2 b' y2 X2 Vb R2 Fr2. apply corr_bind; [solve [gro]| |].
         * apply (IHe false fa fn r c st2 st3 E ((F ++ X1) ++ X2) s2 y2 Hr H3 Hctx2 Hfl R2); [|exact Hhr|].
           -- intros Em. specialize (Hloc Em). lia.
           -- intros fe Ho. apply Hocc. exact (oc_aidx_r l i r st st1 st2 fe H1 H2 Ho).
@@ -2742,7 +2706,7 @@ Section SemSim.
     corr Sall E1 E2 (F ++ X) sst1 r x -> corr Sall E E2 F sst r x.
   Proof.
     intros E E1 E2 F X sst sst1 r x Hf Hx Hmode H.
-    destruct r as [vs s'|[| |rv] s'|k s'|f s'|]; destruct x as [vy y'|y'|y'|vy y'|k' o'|f' o'|[[fe0 ac0]|]|]; cbn [corr] in *;
+    destruct r as [vs s'|[| |rv] s'|k s'|f s'|]; destruct x as [vy y'|y'|y'|vy y'|k' o'|f' o'|[[fe0 ac0]|] mx|]; cbn [corr] in *;
       try exact I; try contradiction; try exact H;
       try (destruct k; first [exact I|contradiction|exact H]).
     - destruct H as [X' [V [R Fr]]]. exists (X ++ X'). rewrite app_assoc. split; [exact V|]. split; [exact R|].
@@ -2755,21 +2719,22 @@ Section SemSim.
 
   (* the head of a list has been evaluated in E, leaving the declarations E1; then the rest *)
   Lemma seq_l : forall E E1 F sst r x (k : val -> sstate -> res val) (kx : val -> yst -> yres val) (P : cenv -> Prop),
+    (forall a s1, grows s1 (k a s1)) ->
     corr Sall E E1 F sst r x -> env_ext E E1 -> P E1 ->
     (forall vs s1 vy y1 X, vrel (F ++ X) vs vy -> Rel3 Sall E1 (F ++ X) s1 y1 -> frame E sst s1 ->
        fresh_ext E E1 sst /\
        exists E', env_ext E1 E' /\ P E' /\ corr Sall E1 E' (F ++ X) s1 (k vs s1) (kx vy y1)) ->
     exists E', env_ext E E' /\ P E' /\ corr Sall E E' F sst (rbind r k) (ybind x kx).
   Proof.
-    intros E E1 F sst r x k kx P H Hext HP Hk.
-    destruct r as [vs s'|[| |rv] s'|e s'|f s'|]; destruct x as [vy y'|y'|y'|vy y'|k' o'|f' o'|[[fe0 ac0]|]|]; cbn [corr rbind ybind] in *;
+    intros E E1 F sst r x k kx P Hg H Hext HP Hk.
+    destruct r as [vs s'|[| |rv] s'|e s'|f s'|]; destruct x as [vy y'|y'|y'|vy y'|k' o'|f' o'|[[fe0 ac0]|] mx|]; cbn [corr rbind ybind] in *;
       try contradiction;
       try (exists E1; split; [exact Hext|]; split; [exact HP|]; first [exact I|exact H|destruct e; first [exact I|contradiction|exact H]]; fail).
     - destruct H as [X [V [R Fr]]]. destruct (Hk vs s' vy y' X V R Fr) as [Hfx [E' [Hext' [HP' Hc]]]].
       exists E'. split; [exact (env_ext_trans _ _ _ Hext Hext')|]. split; [exact HP'|].
       exact (corr_shift_ext E E1 E' F X sst s' _ _ Fr Hfx (proj1 Hext) Hc).
     - exists E1. split; [exact Hext|]. split; [exact HP|].
-      destruct (k vs s') as [a b|[| |c] b|e b|f b|]; try exact I. destruct e; exact I.
+      apply corr_excl. apply (below_step _ _ mx (ROk vs s') s'); [reflexivity|exact H|apply Hg].
   Qed.
 
   Lemma holes_cons : forall E s r, holes_b E (s :: r) -> holes_gen E (fun y => mentions_s y s) /\ holes_b E r.
@@ -3070,7 +3035,7 @@ Section SemSim.
     destruct (ctx_ok_syms st1 (emit_opcode OPop st1) c E eq_refl Hctx1) as [Hctx2 Hk2].
     pose proof (cmax_stmts r lp fa fn _ st' c E HFr Hc Hctx2) as Hk3.
     unfold l_concl. rewrite (eb_expr_other f c e r last sst Hne), ys_expr.
-    apply (seq_l E E F sst _ _ _ _ (fun E' => top0 fa E = false -> ce_L E' = ce_L E)).
+    apply (seq_l E E F sst _ _ _ _ (fun E' => top0 fa E = false -> ce_L E' = ce_L E)); [solve [gro]| | | |].
     - apply (IHe lp fa fn e c st st1 E F sst y HFe H1 Hctx Hfl HR); [|exact Hhs|].
       + intros Em. specialize (Hloc Em). lia.
       + intros fe Ho. apply Hocc. apply oc_l_hd. apply oc_s_expr. exact Ho.
@@ -3100,7 +3065,7 @@ Section SemSim.
     { destruct (ce_mode E) eqn:Em; [|reflexivity]. unfold ctx_ok in Hctx. rewrite Em in Hctx.
       destruct Hctx as [_ [_ [_ [k [outer [cur [Hs _]]]]]]]. rewrite Hs, in_global_ltab in Eg. discriminate Eg. }
     exists E. split; [apply env_ext_refl|]. split; [reflexivity|].
-    rewrite eb_return, ys_return. apply corr_bind.
+    rewrite eb_return, ys_return. apply corr_bind; [solve [gro]| |].
     - apply (IHe false fa fn e c st st1 E F sst y HFe H1 Hctx Hfl HR); [|exact Hhs|].
       + intros Em'. specialize (Hloc Em'). lia.
       + intros fe Ho. apply Hocc. apply oc_l_hd. apply oc_s_ret. exact Ho.
@@ -3155,7 +3120,7 @@ Section SemSim.
     destruct (sblock_ctx b lp fn st st2 c E HFb H2 Hctx) as [Hctx2 [Hk2 Hstb]].
     pose proof (cmax_stmts r lp fa fn _ st' c E HFr Hc Hctx2) as Hk3.
     unfold l_concl. rewrite eb_block, ys_block.
-    apply (seq_l E E F sst _ _ _ _ (fun E' => top0 fa E = false -> ce_L E' = ce_L E)).
+    apply (seq_l E E F sst _ _ _ _ (fun E' => top0 fa E = false -> ce_L E' = ce_L E)); [solve [gro]| | | |].
     - assert (forall fe, occ_blk b st fe -> Sall fe) as Hob.
       { intros fe Ho. apply Hocc. apply oc_l_hd. apply oc_s_block. exact Ho. }
       destruct b as [|s0 b0].
@@ -3258,6 +3223,7 @@ Section SemSim.
 
   (* the initialiser of `stel` has been evaluated in Eh (the new slot is a hole); then the rest *)
   Lemma seq_let : forall E Eh F sst sst1 r x (k : val -> sstate -> res val) (kx : val -> yst -> yres val) (P : cenv -> Prop),
+    (forall a s1, grows s1 (k a s1)) ->
     corr Sall Eh Eh F sst1 r x -> nosig x -> P E -> st_out sst1 = st_out sst ->
     (forall X s' y', Rel3 Sall Eh (F ++ X) s' y' -> frame Eh sst1 s' -> ce_mode Eh = MFun ->
        ce_mode E = MFun /\ Rel3 Sall E (F ++ X) s' y' /\ frame E sst s') ->
@@ -3265,14 +3231,14 @@ Section SemSim.
        exists E', env_ext E E' /\ P E' /\ corr Sall E E' F sst (k vs s1) (kx vy y1)) ->
     exists E', env_ext E E' /\ P E' /\ corr Sall E E' F sst (rbind r k) (ybind x kx).
   Proof.
-    intros E Eh F sst sst1 r x k kx P H Hns HP Hout Hund Hk.
-    destruct r as [vs s'|[| |rv] s'|e s'|f s'|]; destruct x as [vy y'|y'|y'|vy y'|k' o'|f' o'|[[fe0 ac0]|]|]; cbn [corr rbind ybind nosig] in *;
+    intros E Eh F sst sst1 r x k kx P Hg H Hns HP Hout Hund Hk.
+    destruct r as [vs s'|[| |rv] s'|e s'|f s'|]; destruct x as [vy y'|y'|y'|vy y'|k' o'|f' o'|[[fe0 ac0]|] mx|]; cbn [corr rbind ybind nosig] in *;
       try contradiction;
       try (exists E; split; [apply env_ext_refl|]; split; [exact HP|];
            first [exact I|exact H|destruct e; first [exact I|contradiction|exact H]]; fail).
     - destruct H as [X [V [R Fr]]]. exact (Hk vs s' vy y' X V R Fr).
     - exists E. split; [apply env_ext_refl|]. split; [exact HP|].
-      destruct (k vs s') as [a b|[| |c] b|e b|f b|]; try exact I. destruct e; exact I.
+      apply corr_excl. apply (below_step _ _ mx (ROk vs s') s'); [reflexivity|exact H|apply Hg].
     - destruct H as [Hmd [X [V [R Fr]]]]. destruct (Hund X s' y' R Fr Hmd) as [A [B C]].
       exists E. split; [apply env_ext_refl|]. split; [exact HP|]. split; [exact A|]. exists X. auto.
   Qed.
@@ -3429,7 +3395,7 @@ Section SemSim.
     destruct (Rel3_decl E F sst y x fa st c HR Hctx) as [Rh Frh]. fold cl in Rh.
     destruct (decl_env_ext E x cl fa false (r_L _ _ _ _ _ HR) eq_refl) as [Hext1 HL1].
     unfold l_concl. rewrite eb_let', ys_let'. fold cl c' st0.
-    apply (seq_let E (decl_env E x cl fa true) F sst (snd (new_cell sst)) _ _ _ _ (fun E' => top0 fa E = false -> ce_L E' = ce_L E)).
+    apply (seq_let E (decl_env E x cl fa true) F sst (snd (new_cell sst)) _ _ _ _ (fun E' => top0 fa E = false -> ce_L E' = ce_L E)); [solve [gro]| | | | | |].
     - apply (IHe false fa fn e c' st0 st1 _ F _ y HFe H1 Hctxh (flags_decl fa fn E x cl true Hfl) Rh).
       + apply locb_decl. intros Em. specialize (Hloc Em). lia.
       + apply (holes_decl_hole E F sst y _ x cl fa HR Hhs). exact Hmx.
